@@ -9,8 +9,8 @@
 import Optyx.Sexp
 import Optyx.Py.LPPipeline
 
-namespace Optyx.Drive
-open Optyx Optyx.Py
+namespace Optyx.Drive.LPNs
+open Optyx Optyx.Py Optyx.Py.LPP
 
 def optRat : Sexp → Option (Option Rat)
   | .atom "none" => some none
@@ -80,4 +80,4 @@ def handleLP (cmd : String) (args : List Sexp) : Option String :=
       | _, _, _, _, _ => "bad-input"
   | _, _ => none
 
-end Optyx.Drive
+end Optyx.Drive.LPNs
